@@ -56,12 +56,14 @@ func profiles() map[string]world.Profile {
 		"ProcessEvent": 6, "ListRules": 2, "Restart": 4, "GetRule": 3}
 	ids := []string{"f1", "f2", "f3"}
 	return map[string]world.Profile{
-		"facts":        {Name: "facts", Len: 40, Locs: []string{"A"}, Ids: ids, MaxFacts: 1000, Weights: facts},
-		"cascade":      {Name: "cascade", Len: 40, Locs: []string{"A"}, Ids: []string{"f1", "f2", "f3", "f4"}, MaxFacts: 1000, Weights: cascade, Cascade: true},
-		"rules":        {Name: "rules", Len: 40, Locs: []string{"A"}, Ids: []string{"r1", "r2", "f1"}, Rules: true, MaxFacts: 1000, Weights: rules},
-		"expiry":       {Name: "expiry", Len: 30, Locs: []string{"A"}, Ids: ids, Rules: true, Expiry: true, Cascade: true, MaxFacts: 1000, Weights: expiry},
-		"guards":       {Name: "guards", Len: 50, Locs: []string{"A", "B"}, Ids: ids, Rules: true, Keys: true, Parents: true, SideEffects: true, MaxFacts: 1000, Weights: guards},
-		"guardacts":    {Name: "guardacts", Len: 45, Locs: []string{"A"}, Ids: []string{"r1", "r2", "f1"}, Rules: true, Keys: true, SideEffects: true, MaxFacts: 1000, Weights: guardacts},
+		"facts":     {Name: "facts", Len: 40, Locs: []string{"A"}, Ids: ids, MaxFacts: 1000, Weights: facts},
+		"cascade":   {Name: "cascade", Len: 40, Locs: []string{"A"}, Ids: []string{"f1", "f2", "f3", "f4"}, MaxFacts: 1000, Weights: cascade, Cascade: true},
+		"rules":     {Name: "rules", Len: 40, Locs: []string{"A"}, Ids: []string{"r1", "r2", "f1"}, Rules: true, MaxFacts: 1000, Weights: rules},
+		"expiry":    {Name: "expiry", Len: 30, Locs: []string{"A"}, Ids: ids, Rules: true, Expiry: true, Cascade: true, MaxFacts: 1000, Weights: expiry},
+		"guards":    {Name: "guards", Len: 50, Locs: []string{"A", "B"}, Ids: ids, Rules: true, Keys: true, Parents: true, SideEffects: true, MaxFacts: 1000, Weights: guards},
+		"guardacts": {Name: "guardacts", Len: 45, Locs: []string{"A"}, Ids: []string{"r1", "r2", "f1"}, Rules: true, Keys: true, SideEffects: true, MaxFacts: 1000, Weights: guardacts},
+		"cascadeq": {Name: "cascadeq", Len: 40, Locs: []string{"A"}, Ids: []string{"f1", "f2", "?q", "?x"}, MaxFacts: 1000, Cascade: true,
+			Weights: map[string]int{"AddFact": 30, "RemFact": 16, "GetFact": 10}}, // ids that look like pattern variables
 		"capacity":     {Name: "capacity", Len: 40, Locs: []string{"A"}, Ids: []string{"f1", "f2", "f3", "f4", "f5"}, Rules: true, MaxFacts: 3, Weights: capacity},
 		"lifecycle":    {Name: "lifecycle", Len: 45, Locs: []string{"A", "B"}, Ids: []string{"r1", "r2"}, Rules: true, Parents: true, Scheduled: true, MaxFacts: 1000, Weights: lifecycle},
 		"dispatch":     {Name: "dispatch", Len: 40, Locs: []string{"A", "B"}, Ids: []string{"r1", "r2", "r3", "f1", "f2"}, Rules: true, Dispatch: true, Parents: true, MaxFacts: 1000, Weights: dispatch},
